@@ -56,6 +56,20 @@ def topkOk (largest : Bool) (vals : List α) (kk : Nat) (idx : List Nat) : Bool 
   && idx.all (fun i => (List.range vals.length).all fun j =>
         idx.contains j || leB largest (vals.getD i (k 0)) (vals.getD j (k 0)))
 
+/-- linear-time form of the same contract (what the driver evaluates on every call; `topkOkFast_sound` in
+`Proofs/Lemmas/Cloud.lean` shows it implies the contract): adjacent values in order, and the LAST selected value
+not after any non-selected one. -/
+def topkOkFast (largest : Bool) (vals : List α) (kk : Nat) (idx : List Nat) : Bool :=
+  let sel := idx.map fun i => vals.getD i (k 0)
+  idx.length == kk
+  && idx.all (fun i => decide (i < vals.length))
+  && idx.Nodup
+  && (sel.zip sel.tail).all (fun ab => leB largest ab.1 ab.2)
+  && match idx.getLast? with
+     | none => true
+     | some l => (List.range vals.length).all fun j =>
+        idx.contains j || leB largest (vals.getD l (k 0)) (vals.getD j (k 0))
+
 /-- stand-in: stable merge sort of `(value, index)` pairs, first `k` indices -/
 def topkStd (largest : Bool) (vals : List α) (kk : Nat) : List Nat :=
   ((vals.zipIdx.mergeSort fun a b => leB largest a.1 b.1).take kk).map (·.2)
